@@ -59,6 +59,13 @@ def _canon(obj):
     return obj
 
 
+def _plain_repr(o):
+    try:
+        return ''.join(str(o)) if isinstance(o, str) else repr(o)
+    except Exception:
+        return '<unrepresentable %s>' % type(o).__name__
+
+
 def hexdigest(obj):
     """Stable digest of a JSON-able object."""
     s = json.dumps(_canon(obj), sort_keys=True, separators=(',', ':'), default=repr)
@@ -267,8 +274,9 @@ def _worker_batch(pid, base_seed, tier, indices, want_samples, records=None):
         out['sim_time'] += res['sim_time']
         out['steps'] += res['steps']
         if res['violations']:
-            out['viol'].append({'index': i, 'seed': seed, 'record': record,
-                                'violations': res['violations']})
+            # plain data only (a detail may carry a DOM Text or token whose document cannot be pickled)
+            plain = json.loads(json.dumps(_canon(res['violations']), default=_plain_repr))
+            out['viol'].append({'index': i, 'seed': seed, 'record': record, 'violations': plain})
         if want_samples and len(out['samples']) < want_samples:
             if res['nontrivial'] or i == indices[0]:
                 out['samples'].append(_clip_sample(record))
